@@ -93,7 +93,14 @@ struct Local : Scenario {
   bool on_quiescent(World &w) override { long dl = w.next_deadline(); if (dl < 0 || ++ticks > 50) return false; w.advance_clock(dl); w.counters["clock_advances"]++; return true; }
   // ------------------------------------------------------------------ alternatives: crash points and faults
   void alternatives(World &w, Proc &p, const Req &r, std::vector<Alt> &a) override {
-    if (mode == "c13") return;
+    if (mode == "c13") {
+      // family qmailio: the selected control file cannot be opened (each of a list of error codes) or read, or is read in short pieces
+      if (cfg.get("family", "") != "qmailio" || w.ex->bound[BK_FAULT] <= 0 || p.vpid != d[0].pid) return;
+      if (r.op == VK_OPEN && std::string(r.data.c_str()).compare(0, 6, ".qmail") == 0) for (int e : {EIO, ENFILE, EMFILE, ENOMEM, EACCES, EPERM, EAGAIN, ENOSPC, ETXTBSY, EBUSY}) a.push_back({BK_FAULT, ALT_FAIL, e});
+      if (r.op == VK_READ) { Ofd *f = w.O(p, r.a[0]); Inode *i = (f && f->kind == K_FILE) ? w.k.I(f->ino) : nullptr; bool dq = false; for (auto &hf : homefiles) if (i && w.k.file("/home/u/" + hf.first) == i) dq = true;
+        if (dq) { a.push_back({BK_FAULT, ALT_FAIL, EIO}); size_t left = i->data.size() > (size_t) f->off ? i->data.size() - f->off : 0; if (left > 1) { a.push_back({BK_FAULT, ALT_SHORT, 1}); a.push_back({BK_FAULT, ALT_SHORT, (int) (left / 2)}); if (left > 2) a.push_back({BK_FAULT, ALT_SHORT, (int) left - 1}); } } }
+      return;
+    }
     bool fileop = false; Ofd *o = nullptr;
     switch (r.op) { case VK_WRITE: case VK_FSYNC: case VK_CLOSE: case VK_FTRUNCATE: case VK_READ: o = w.O(p, r.a[0]); fileop = o && o->kind == K_FILE; break; case VK_OPEN: case VK_LINK: case VK_UNLINK: case VK_FORK: fileop = true; break; case VK_FLOCK: fileop = true; break; default: break; }
     if (!fileop) return;
@@ -237,6 +244,10 @@ void Local::setup_c13(World &w) {
     for (int i = 0; i < n; i++) { int c = w.ex->choose_n(14, BK_FREE); body += std::string(ins[c]) + "\n"; casename += " [" + std::string(ins[c]) + "]"; }
     int variant = w.ex->choose_n(3, BK_FREE);   // 0: -n   1: real   2: real with x bit
     dryrun = variant == 0; addfile(".qmail", body, variant == 2 ? 0700 : 0600); ext = ""; casename += dryrun ? " -n" : variant == 2 ? " real,x-bit" : " real";
+  } else if (fam == "qmailio") {
+    int dr = w.ex->choose_n(2, BK_FREE), which = w.ex->choose_n(2, BK_FREE);
+    addfile(".qmail-a", "./mbox\n./maildir/\n&fwd@x.example\n|exit 0\n", 0600); addfile(".qmail-default", "./chosendefault\n", 0600); addfile(".qmail", "./chosenplain\n", 0600);
+    ext = which ? "a" : "b"; dryrun = dr == 0; casename = std::string("control file i/o ext=") + ext + (dryrun ? " -n" : " real");
   } else if (fam == "owner") {
     int sub = w.ex->choose_n(4, BK_FREE), si = w.ex->choose_n(3, BK_FREE); static const char *snd[] = {"s@src.example", "", "#@[]"};
     addfile(".qmail-list", "&a@x.example\n&b@y.example\n", 0600); if (sub & 1) addfile(".qmail-list-owner", "&o@x.example\n", 0600); if (sub & 2) addfile(".qmail-list-owner-default", "#\n", 0600);
@@ -305,6 +316,13 @@ void Local::end_c13(World &w) {
   Deliv &x = d[0]; std::string key = "C13:" + casename;
   w.counters["c13_cases"]++;
   std::string errtxt = err2 ? err2->data : "";
+  if (cfg.get("family", "") == "qmailio" && faults > 0) {
+    // a control file that exists but cannot be opened or read: the delivery is deferred, no other file takes its place, nothing is done
+    w.counters["c13_control_file_errors"]++;
+    if (x.exitcode != 111) { w.soft_violation(key + ":unreadable-control-file", casename + ": a .qmail file could not be opened/read (injected error) but qmail-local exited " + std::to_string(x.exitcode) + " [" + esc(errtxt, 100) + "] instead of deferring (111)"); return; }
+    if (!actions.empty()) { w.soft_violation(key + ":unreadable-control-file", casename + ": deliveries were made although the control file could not be read"); return; }
+    return;
+  }
   if (x.exitcode != want_exit) { w.soft_violation(key, casename + ": exit code " + std::to_string(x.exitcode) + " [" + esc(errtxt, 100) + "], documented " + std::to_string(want_exit)); return; }
   std::vector<std::string> got = actions;
   if (dryrun) { got.clear(); std::string o = out1->data; size_t i = 0; while (i < o.size()) { size_t j = o.find('\n', i); if (j == std::string::npos) break; std::string l = o.substr(i, j - i); i = j + 1; if (l.compare(0, 4, "did ") == 0 || l.compare(0, 3, "qp ") == 0) continue; if (l.compare(0, 8, "maildir ") == 0) l = "maildir " + l.substr(10, l.size() - 11); got.push_back(l); } }
